@@ -23,7 +23,7 @@ CHECKS = {
   "Trusted: R2. Positions/configurations outside the families are not covered.",
   TECH),
  "C15": ("model_checking",
-  "Invariant monitor on every call of every execution of the shared families incl. the every-length x every-bit-alignment sweep (cursor/avail/total accounting; Z_BUF_ERROR rule with a model of zlib's flush ranking: a call without input whose flush ranks above the previous call's must not answer Z_BUF_ERROR when it has room - all ordered pairs of flush kinds are scheduled), decode under three schedules with 0..3 trailing garbage bytes (consumed == stream length), the same chunkings through the Rust wrappers, one-shot helper lengths, and explicit enumeration to depth 4 (5) of inflate programs with inflateSync/prime/validate with totals compared with the sums after every call.",
+  "Invariant monitor on every call of every execution of the shared families incl. the every-length x every-bit-alignment sweep (cursor/avail/total accounting; Z_BUF_ERROR rule with a model of zlib's flush ranking: a call without input whose flush ranks above the previous call's must not answer Z_BUF_ERROR when it has room - all ordered pairs of flush kinds are scheduled), decode under three schedules with 0..3 trailing garbage bytes (consumed == stream length), the same chunkings through the Rust wrappers (whose one-call output must equal the C API's and whose totals must not count a preset dictionary), one-shot helper lengths, and explicit enumeration to depth 4 (5) of inflate programs with inflateSync/prime/validate with totals compared with the sums after every call.",
   "Totals after Z_NEED_DICT are not judged (zlib is self-inconsistent there).",
   TECH),
  "C18": ("fault_enumeration",
@@ -55,7 +55,7 @@ CHECKS = {
   "Trusted: R2/R3/R4 (self-tested against zlib-ng). Three-way disagreements where zlib-ng sides with zlib-rs are reported in the evidence as model_divergence (currently 0).",
   TECH),
  "C04": ("model_checking",
-  "For every corpus stream (valid, invalid, truncated) the one-call run is the reference execution; all compositions of the input (<= 9/12 bytes), every single split, 1-byte pieces, boundary output rooms, EVERY position of the first output-buffer end and every uniform room 4..300 (intact streams <= 700 bytes out) and all five flush values (uniform and at one call) must reproduce its output, verdict and consumed length. Decoder resume states are observed through hook H2 and the run is rejected as vacuous unless every resumable mode was entered.",
+  "For every corpus stream (valid, invalid, truncated) the one-call run is the reference execution; all compositions of the input (<= 9/12 bytes), every single split, 1-byte pieces, boundary output rooms, EVERY position of the first output-buffer end and every uniform room 4..300 (intact streams <= 700 bytes out) and all five flush values (uniform and at one call) must reproduce its output, verdict and consumed length; three-phase schedules around a call that produces a whole window; three chunkings through zlib_rs::Inflate whose verdict, output and own totals must agree with each other and with the C API. Decoder resume states are observed through hook H2 and the run is rejected as vacuous unless every resumable mode was entered.",
   "Trusted: hook H2 (read-only), the harness. Not covered: more than one split on streams > 12 bytes, streams outside the corpus.",
   "bounded exhaustive enumeration of call schedules, differential against the one-call execution"),
  "C08": ("model_checking",
